@@ -93,7 +93,9 @@ open SST.Generated SST.AccessSpec in
   halves of a get; the client's `currentSSTable` snapshot holds the manager read lock;
 * `reflectCompactionResult` writes only under db write lock + manager write lock; the selection
   (`candidateTablesForCompaction`) and the merge (`executeCompaction`) hold no db lock;
-* the rotation hands the flusher `swapMemstore(db)`: swap first (operand evaluation), then the send. -/
+* the rotation hands the flusher `swapMemstore(db)`: swap first (operand evaluation), then the send, on an
+  UNBUFFERED channel (`make(chan memStoreFlushAction)`): the send completes only when the flusher is back at its
+  receive, i.e. has installed the previous table — which is why `DBM.rotate` starts with `flushStep`. -/
 theorem lock_facts_as_modelled :
     (accesses.all fun a => !(a.thread == .client) || a.obj == objRwLock || hasL a .dbR || hasL a .dbW) = true ∧
     (accesses.all fun a => !(a.thread == .client) || a.kind == .read || hasL a .dbW) = true ∧
@@ -107,7 +109,8 @@ theorem lock_facts_as_modelled :
         (!hasL a .dbW && !hasL a .dbR)) = true ∧
     ((accesses.filter fun a => a.fn == "SSTableManager.reflectCompactionResult" && a.kind == .write).length > 0) ∧
     ((accesses.filter fun a => a.thread == .client && a.kind == .write).length > 0) ∧
-    flushSends = [("DB.VerifWaitFlushIdle", "&empty"), ("DB.rotateWalAndFlushMemstore", "swapMemstore(db)")] := by
+    flushSends = [("DB.VerifWaitFlushIdle", "&empty"), ("DB.rotateWalAndFlushMemstore", "swapMemstore(db)")] ∧
+    dbChannels.lookup "storeFlushChannel" = some "make(chan memStoreFlushAction)" := by
   decide +kernel
 
 /-! ## non-vacuity -/
